@@ -3,6 +3,7 @@ import XmppModel.Model.Correlate
 import XmppModel.Model.CorrAttrs
 import XmppModel.Model.CorrWrap
 import XmppModel.Model.CorrExpect
+import XmppModel.Model.CorrIbb
 import XmppModel.Driver.C15
 import XmppModel.Driver.C18
 /-! Driver module for C06: replays an observed trace of a forced schedule on the LTS of
@@ -425,8 +426,74 @@ def insertSorted (x : String) : List String → List String
 def showExpEvs (l : List CorrExpect.Ev) : String :=
   if l.isEmpty then "-" else joinList ((l.map showExpEv).foldr insertSorted []) "+"
 
+/-! `C06 ibbw <carrier><role> <ops>`: the waits of one in-band bytestream (Model/CorrIbb.lean) -/
+def parseIbbOp (t : String) : Option CorrIbb.Op :=
+  match t.toList with
+  | ['R'] => some .read
+  | ['C'] => some .peerClose
+  | ['W'] => some .write
+  | ['a'] => some (.ack true)
+  | ['e'] => some (.ack false)
+  | ['K'] => some .close
+  | ['k'] => some (.closeReply true)
+  | ['j'] => some (.closeReply false)
+  | ['B', c] => if c = 'i' then some (.data true 1 false) else if c = 'm' then some (.data false 1 false) else none
+  | 'D' :: c :: r => do
+    let n ← numOf r
+    if c = 'i' then some (.data true n true) else if c = 'm' then some (.data false n true) else none
+  | _ => none
+
+def showIbbOp : CorrIbb.Op → String
+  | .read => "R" | .peerClose => "C" | .write => "W" | .ack true => "a" | .ack false => "e"
+  | .close => "K" | .closeReply true => "k" | .closeReply false => "j"
+  | .data v n true => (if v then "Di" else "Dm") ++ toString n
+  | .data v _ false => if v then "Bi" else "Bm"
+
+/-- `sent` is not reported for the peer's close request (what the close handler flushes is C15's business) -/
+def showIbbEv : CorrIbb.Ev → String
+  | .readRet n => s!"r{n}"
+  | .writeRet ok => if ok then "w1" else "w0"
+  | .closeRet ok => if ok then "k1" else "k0"
+  | .ackData => "A"
+  | .refuseData nf => if nf then "Ni" else "Nu"
+  | .closeResult => "Z"
+  | .closeNotFound => "Y"
+  | .sentData => "s"
+  | .sentClose => "c"
+
+def showIbbEvs (l : List CorrIbb.Ev) : String :=
+  if l.isEmpty then "-" else joinList ((l.map showIbbEv).foldr insertSorted []) "+"
+
+def ibbInit (cfg : String) : Option CorrIbb.St :=
+  match cfg.toList with
+  | [c, r] =>
+    if (c = 'i' ∨ c = 'm') ∧ (r = 'o' ∨ r = 'a') then some { acked := c = 'i' } else none
+  | _ => none
+
+def ibbAlphabet : List CorrIbb.Op :=
+  [.read, .data true 2 true, .data false 3 true, .data false 1 false, .peerClose, .write, .ack true, .ack false,
+   .close, .closeReply true, .closeReply false]
+
+/-- every history of `depth` effective operations (the harness appends the wind-down) -/
+def ibbGen (s : CorrIbb.St) : Nat → List String → List String → List String
+  | 0, pre, acc => (joinList pre.reverse) :: acc
+  | d + 1, pre, acc =>
+    ibbAlphabet.foldl (fun acc o =>
+      if CorrIbb.effective s o then ibbGen (CorrIbb.step {} s o).1 d (showIbbOp o :: pre) acc else acc) acc
+
 def handle (args : List String) : Option String :=
   match args with
+  | ["ibbw", cfg, ops] => do
+    let s0 ← ibbInit cfg
+    let os ← mapM? parseIbbOp (splitList ops)
+    let evs := CorrIbb.run {} s0 os
+    let fin := CorrIbb.final {} s0 os
+    let probe := if fin.quiet then "live" else "stall"
+    pure s!"{joinList (evs.map showIbbEvs)} probe={probe}"
+  | ["ibbgen", cfg, depth, max] => do
+    let s0 ← ibbInit cfg
+    let d ← depth.toNat?; let m ← max.toNat?
+    pure (joinList ((ibbGen s0 d [] []).reverse.take m) ";")
   | ["exp", ops] => do
     let os ← mapM? parseExpOp (splitList ops)
     let evs := CorrExpect.run {} os
